@@ -375,6 +375,9 @@ def gmres(A: LinearOperator, B: torch.Tensor,
     # prepare the initial guess (it's just all zeros)
     x0shape = (ncols, *batchdims, nr, 1) if col_swapped else (*batchdims, nr, ncols)
     x0 = torch.zeros(x0shape, dtype=A.dtype, device=A.device)
+    if col_swapped:
+        # the columns are moved to the leading batch dimension: (ncols, *batchdims, nr, 1)
+        batchdims, ncols = (ncols, *batchdims), 1
 
     r = B2 - A_fcn(x0)  # torch.Size([*batch_dims, nr, ncols])
     best_resid = r.norm(dim=-2, keepdim=True)  # / B_norm
@@ -392,14 +395,18 @@ def gmres(A: LinearOperator, B: torch.Tensor,
             h[..., j, k] = _dot(q[j], y).reshape(-1, ncols)
             y = y - h[..., j, k].reshape(*batchdims, 1, ncols) * q[j]
 
-        h[..., k + 1, k] = torch.linalg.norm(y, dim=-2)
+        h[..., k + 1, k] = torch.linalg.norm(y, dim=-2).reshape(-1, ncols)
         if torch.any(h[..., k + 1, k]) != 0 and k != max_niter - 1:
-            q[k + 1] = y.reshape(-1, nr, ncols) / h[..., k + 1, k].reshape(-1, 1, ncols)
-            q[k + 1] = q[k + 1].reshape(*batchdims, nr, ncols)
+            qk1 = y.reshape(-1, nr, ncols) / _safedenom(h[..., k + 1, k].reshape(-1, 1, ncols).clone(), eps)
+            q[k + 1] = qk1.reshape(*batchdims, nr, ncols)
+
+        if k == 0:
+            # no Krylov vector is available yet for the least-squares problem
+            continue
 
         b = torch.zeros((*batchdims, ncols, k + 1), dtype=A.dtype, device=A.device)
         b = b.reshape(-1, ncols, k + 1)
-        b[..., 0] = torch.linalg.norm(r, dim=-2)
+        b[..., 0] = torch.linalg.norm(r, dim=-2).reshape(-1, ncols)
         rk = torch.linalg.lstsq(h[..., :k + 1, :k], b)[0]  # torch.Size([*batch_dims, max_niter])
         # Q, R = torch.linalg.qr(h[:, :k+1, :k], mode='complete')
         # result = torch.triangular_solve(torch.matmul(Q.permute(0, 2, 1), b[:, :, None])[:, :-1], R[:, :-1, :])[0]
@@ -430,6 +437,9 @@ def gmres(A: LinearOperator, B: torch.Tensor,
         warnings.warn(ConvergenceWarning(msg))
 
     res = best_res
+    if col_swapped:
+        # res: (ncols, *, nr, 1)
+        res = res.transpose(0, -1).squeeze(0)  # (*, nr, ncols)
     return res
 
 
